@@ -19,7 +19,7 @@ ASSUMPTIONS = TRUSTED + ["which voxel a 1-based position sits on, and whether bo
                          "direction and presence of both sides are decided, not strictness"]
 
 M = "cryomotl.Motl."
-BASE_A = {"isinstance(feature_values, list)": False, "reset_index": True, "return_df": False, "output_file": False, "inplace": True,
+BASE_A = {"isinstance(feature_values, list)": False, "isinstance(feature_values, (list, np.ndarray))": False, "reset_index": True, "return_df": False, "output_file": False, "inplace": True,
           "isinstance(tomo_masks, list)": True, "len(tomos) != len(tomo_masks)": False, "requries_loading": True,
           "output_file is not None": False, "tomo_number is None": True}
 
